@@ -293,14 +293,17 @@ def f_lutmany(rng, seed):
     n = Net(seed)
     C = rng.choice([16, 32])
     x = n.fm("in", [1, C], is_input=True)
-    k = rng.randint(5, 7)
+    k = rng.randint(5, 8)
     alphas = [0.05 + 0.03 * i for i in range(k)]
     for al in alphas:
         x = n.unary("LEAKY_RELU", x, alpha=al)
-    if rng.random() < 0.8:
+    if rng.random() < 0.85:
         x = n.unary("SOFTMAX", x)
-    x = n.unary("LEAKY_RELU", x, alpha=rng.choice(alphas[-2:]))
-    x = n.unary("LEAKY_RELU", x, alpha=alphas[0])
+        x = n.unary("QUANTIZE", x)          # back to the quantisation of the earlier tables so that they can be reused
+        n.t[x]["scale"], n.t[x]["zp"] = [0.05], [0]
+    # reuse tables from both ends of the slot range: whichever 1 KiB half the big table evicted, a neighbour is reused
+    for i in (k - 1, 1, k - 2, 2, 0):
+        x = n.unary("LEAKY_RELU", x, alpha=alphas[i % k])
     return "lutmany:%d" % k, n.desc([x])
 
 
@@ -334,20 +337,28 @@ def f_pruned(rng, seed):
 
 
 def f_diamonds(rng, seed):
-    """two time-disjoint groups of competing feature maps (fast-storage allocation), bigger group first or second"""
+    """two independent groups of competing feature maps (fast-storage allocation) of different sizes, in either order,
+    with an arena cache that holds one intermediate feature map of a group but not two"""
     n = Net(seed)
-    H, W, C = rng.choice([8, 16]), rng.choice([8, 16]), rng.choice([8, 16])
-    x = n.fm("in", [1, H, W, C], is_input=True)
-
-    def diamond(t, k):
-        a = n.conv(t, C, k)
-        b = n.conv(t, C, 1)
-        return n.eltwise("ADD", a, b)
-    d1 = diamond(x, 3)
-    p = n.pool(d1, "MAX_POOL_2D") if rng.random() < 0.5 else d1
-    d2 = diamond(p, 1)
-    outs = [d2, d1] if rng.random() < 0.5 else [d1, d2]
-    return "diamonds", n.desc(outs)
+    C = 16
+    shapes = [[1, 16, rng.choice([14, 12, 10]), C], [1, 16, 16, C]]
+    if rng.random() < 0.5:
+        shapes.reverse()
+    outs = []
+    for gi, sh in enumerate(shapes):
+        a = n.fm("g%d_a" % gi, sh, scale=0.5, is_input=True)
+        b = n.fm("g%d_b" % gi, sh, scale=0.25, is_input=True)
+        c = n.fm("g%d_c" % gi, sh, scale=0.125, is_input=True)
+        t1 = n.eltwise("ADD", a, b, oscale=0.75, ozp=0)
+        t2 = n.eltwise("ADD", t1, c, oscale=0.8, ozp=0)
+        outs.append(n.eltwise("ADD", t1, t2, oscale=1.0, ozp=0))
+    fm = min(s[1] * s[2] * s[3] for s in shapes)
+    hint = {"arena": rng.choice([fm + 2048, fm + 2560, 6144]), "optimise": "Performance"}
+    if rng.random() < 0.7:      # the i.MX93 default architecture or U65 dedicated SRAM stage feature maps into fast storage
+        hint.update(accel=rng.choice(["ethos-u65-256", "ethos-u65-512"]), config=None, system_config=None, memory_mode=None)
+        if rng.random() < 0.5:
+            hint.update(config=ARM_INI, system_config="Ethos_U65_High_End", memory_mode="Dedicated_Sram")
+    return "diamonds", n.desc(outs), hint
 
 
 def f_stride3(rng, seed):
@@ -388,6 +399,11 @@ def draw(n, seed, families=None, accel=None, dedicated_bias=0.0, weights=None):
     for i in range(n):
         fam = rng.choices(fams, weights=weights)[0] if weights else fams[i % len(fams)]
         s = rng.randrange(1 << 20)
-        label, net = FAMILIES[fam](rng, s)
-        out.append({"id": i, "family": label, "net": net, "opts": config_point(rng, accel, dedicated_bias)})
+        r = FAMILIES[fam](rng, s)
+        label, net = r[0], r[1]
+        opts = config_point(rng, accel, dedicated_bias)
+        if len(r) > 2:            # the family knows which configuration makes it interesting
+            opts.update(r[2])
+            opts = {k: v for k, v in opts.items() if v is not None}
+        out.append({"id": i, "family": label, "net": net, "opts": opts})
     return out
